@@ -5,7 +5,7 @@ import ast
 from fractions import Fraction
 from typing import Dict, List, Optional, Set, Tuple
 
-from ..cfg import CFG
+from ..cfg import CFG, symbolic_returns
 from ..exprnorm import Poly, Rat, norm_test, normalize
 from ..report import Run
 from ..src import (AnalysisError, ClassInfo, FuncInfo, Program, attr_chain, call_name, dotted,
@@ -387,7 +387,53 @@ def invertibility(prog: Program, run: Run, R: str) -> None:
                 if op is ast.NotEq and not isinstance(l, ast.Call):
                     good = True
             kinds["continuity"] = True
-            if good:
+            # the two operands are the function values of the two segments at the boundary
+            ops_ok = True
+            for nm_ in sorted({m.id for m in ast.walk(t) if isinstance(m, ast.Name)}):
+                defs_ = [x for x in walk_no_nested(f.node) if isinstance(x, ast.Assign) and
+                         ast.unparse(x.targets[0]) == nm_]
+                if len(defs_) != 1:
+                    continue
+                v = defs_[0].value
+                if isinstance(v, ast.Call) and isinstance(v.func, ast.Attribute) and \
+                        v.func.attr == "convert_internal_to_physical":
+                    continue
+                segs = sorted({ast.unparse(m.value) for m in ast.walk(v) if isinstance(
+                    m, ast.Attribute) and m.attr in ("offset", "factor", "denominator")})
+                want_ok = False
+                if len(segs) == 1:
+                    sg = segs[0]
+
+                    def env(node, sg=sg):
+                        u = ast.unparse(node) if isinstance(node, (ast.Attribute,
+                                                                     ast.Name)) else None
+                        if u == sg + ".offset":
+                            return Rat(Poly.atom("o"))
+                        if u == sg + ".factor":
+                            return Rat(Poly.atom("f"))
+                        if u == sg + ".denominator":
+                            return Rat(Poly.atom("d"))
+                        if isinstance(node, ast.Name):
+                            return Rat(Poly.atom("x"))
+                        return None
+                    try:
+                        got = normalize(v, env)
+                        want = (Rat(Poly.atom("o")) + Rat(Poly.atom("f")) * Rat(
+                            Poly.atom("x"))).div(Rat(Poly.atom("d")))
+                        want_ok = got.same(want)
+                    except Exception:  # noqa: BLE001
+                        want_ok = False
+                if not want_ok:
+                    ops_ok = False
+                    run.violation(R, C, f"continuity-operand-{nm_}",
+                                  f"`{stmt_key(defs_[0])}`: the continuity test does not compare "
+                                  "the segments' function values (offset + factor*x)/denominator "
+                                  "at the common boundary: segments with different denominators "
+                                  "are judged (dis)continuous wrongly", _loc(f, defs_[0]),
+                                  stmt_key(defs_[0]))
+            if good and not ops_ok:
+                pass
+            elif good:
                 run.ok(R, C, "non-invertible when the function values at the common boundary "
                        "differ", _loc(f, a))
             else:
@@ -435,6 +481,96 @@ def _enclosing_if(fn: ast.AST, node: ast.AST) -> ast.If:
     return best
 
 
+# ===================================================================== symbolic returns
+INT_TYPES_TXT = ("A_INT32", "A_UINT32")
+
+
+def arithmetic_returns(f: FuncInfo, role: str):
+    """[(role polarity on the path: True int / False float / None untested, other-role tests,
+    returned expression with locals inlined, return node)] for the returns that compute
+    something (contain a division)."""
+    out = []
+    for conds, e, r in symbolic_returns(f.node):
+        if e is None or not any(isinstance(x, ast.BinOp) and isinstance(x.op, (ast.Div,
+                                                                                 ast.FloorDiv))
+                                for x in ast.walk(e)):
+            continue
+        pol = None
+        others = []
+        for t, p in conds:
+            s_ = ast.unparse(t)
+            if " in" in s_ and all(k in s_ for k in INT_TYPES_TXT):
+                if s_.startswith(role + " in"):
+                    pol = p if pol is None else pol
+                elif p:
+                    others.append(s_.split(" in")[0])
+        out.append((pol, others, e, r))
+    return out
+
+
+def _strip_round(e: ast.AST):
+    """(inner expression, rounded?, truncated?)"""
+    rounded = False
+    trunc = False
+    cur = e
+    while isinstance(cur, ast.Call) and call_name(cur) in ("round", "int", "floor", "trunc") and \
+            cur.args:
+        if call_name(cur) == "round":
+            rounded = True
+        elif not rounded and not any(isinstance(m, ast.Call) and call_name(m) == "round"
+                                     for m in ast.walk(cur.args[0])):
+            trunc = True
+        cur = cur.args[0]
+    if any(isinstance(x, ast.BinOp) and isinstance(x.op, ast.FloorDiv) for x in ast.walk(cur)):
+        trunc = True
+    return cur, rounded, trunc
+
+
+class _FloorToDiv(ast.NodeTransformer):
+    def visit_BinOp(self, node: ast.BinOp) -> ast.AST:
+        self.generic_visit(node)
+        if isinstance(node.op, ast.FloorDiv):
+            return ast.BinOp(left=node.left, op=ast.Div(), right=node.right)
+        return node
+
+
+def _rounding_symbolic(run: Run, R: str, f: FuncInfo, spec: str, role: str) -> None:
+    rets = arithmetic_returns(f, role)
+    if not rets:
+        raise AnalysisError(f"{spec}: no computing return found")
+    bad = False
+    for pol, others, e, r in rets:
+        _inner, rounded, trunc = _strip_round(e)
+        txt = " ".join(ast.unparse(e).split())
+        for o in others:
+            if rounded:
+                bad = True
+                run.violation(R, spec, "rounding-role",
+                              f"rounding is decided by `{o}`, but the result of this direction "
+                              f"has type `{role}`", _loc(f, r), txt)
+        if pol is False:
+            if rounded and not others:
+                bad = True
+                run.violation(R, spec, "float-result-rounded",
+                              f"`{txt}` rounds although {role} is not an integer type on this "
+                              "path", _loc(f, r), txt)
+            continue
+        if trunc:
+            bad = True
+            run.violation(R, spec, "truncation",
+                          f"`{txt}` truncates (floor division / int()) instead of rounding to "
+                          "nearest; ODX prescribes rounding for integer result types",
+                          _loc(f, r), txt)
+        elif not rounded:
+            bad = True
+            run.violation(R, spec, "no-rounding",
+                          f"`{txt}` is returned without rounding on a path where {role} may be "
+                          "an integer type", _loc(f, r), txt)
+    if not bad:
+        run.ok(R, spec, f"every computing return is rounded to nearest exactly when {role} is an "
+               f"integer type ({len(rets)} paths)", f.loc)
+
+
 # ===================================================================== rounding
 def rounding(prog: Program, run: Run, R: str) -> int:
     """Computed (arithmetic) results that may have to be integers are rounded, never
@@ -451,6 +587,9 @@ def rounding(prog: Program, run: Run, R: str) -> int:
     for spec, role in table:
         f = prog.func(spec)
         n += 1
+        if spec.startswith("LinearSegment."):
+            _rounding_symbolic(run, R, f, spec, role)
+            continue
         cfg = CFG(f.node)
         # the variable that is returned at the end
         rets = [r for r in walk_no_nested(f.node) if isinstance(r, ast.Return) and isinstance(
@@ -670,45 +809,55 @@ def linear_forms(prog: Program, run: Run, R: str, R_inv: str) -> None:
     fwd = prog.func("LinearSegment.convert_internal_to_physical")
     inv = prog.func("LinearSegment.convert_physical_to_internal")
 
-    def formula(f: FuncInfo) -> Tuple[ast.Assign, str]:
-        for x in walk_no_nested(f.node):
-            if isinstance(x, ast.Assign) and isinstance(x.value, ast.BinOp) and isinstance(
-                    x.value.op, ast.Div):
-                return x, f.params()[1]
-        raise AnalysisError(f"{f.qual}: formula not found")
-    fa, x = formula(fwd)
-    ia, y = formula(inv)
     env_names = {"self.offset": "o", "self.factor": "f", "self.denominator": "d"}
 
     def env_for(var: str, sym: Rat):
         def env(node: ast.AST):
-            s = ast.unparse(node) if isinstance(node, (ast.Attribute, ast.Name)) else None
-            if s in env_names:
-                return Rat(Poly.atom(env_names[s]))
-            if s == var:
+            s_ = ast.unparse(node) if isinstance(node, (ast.Attribute, ast.Name)) else None
+            if s_ in env_names:
+                return Rat(Poly.atom(env_names[s_]))
+            if s_ == var:
                 return sym
             return None
         return env
+
+    def formulas(f: FuncInfo, role: str):
+        out = []
+        for _pol, _o, e, r in arithmetic_returns(f, role):
+            inner, _rd, _tr = _strip_round(e)
+            import copy
+            out.append((ast.fix_missing_locations(_FloorToDiv().visit(copy.deepcopy(inner))), r))
+        if not out:
+            raise AnalysisError(f"{f.qual}: formula not found")
+        return out
+    x = fwd.params()[1]
+    y = inv.params()[1]
     X = Rat(Poly.atom("x"))
-    F = normalize(fa.value, env_for(x, X))
     want = (Rat(Poly.atom("o")) + Rat(Poly.atom("f")) * X).div(Rat(Poly.atom("d")))
-    if F.same(want):
-        run.ok(R, "LinearSegment.convert_internal_to_physical",
-               "forward function is (offset + factor*x)/denominator", _loc(fwd, fa))
-    else:
-        run.violation(R, "LinearSegment.convert_internal_to_physical", "forward-formula",
-                      f"`{stmt_key(fa)}` is not (offset + factor*x)/denominator", _loc(fwd, fa),
-                      stmt_key(fa))
+    F = None
+    for e, r in formulas(fwd, "self.physical_type"):
+        Fi = normalize(e, env_for(x, X))
+        txt = " ".join(ast.unparse(e).split())
+        if Fi.same(want):
+            F = Fi
+            run.ok(R, "LinearSegment.convert_internal_to_physical",
+                   "forward function is (offset + factor*x)/denominator", _loc(fwd, r))
+        else:
+            run.violation(R, "LinearSegment.convert_internal_to_physical", "forward-formula",
+                          f"`{txt}` is not (offset + factor*x)/denominator", _loc(fwd, r), txt)
+    if F is None:
+        F = want
     # compose: inverse(forward(x)) == x
-    G = normalize(ia.value, env_for(y, F))
-    if G.same(X):
-        run.ok(R_inv, "LinearSegment", "inverse(forward(x)) normalises to x: the two formulas are "
-               "algebraic inverses", _loc(inv, ia))
-    else:
-        run.violation(R_inv, "LinearSegment.convert_physical_to_internal", "not-inverse",
-                      f"`{stmt_key(ia)}` composed with the forward formula gives `{G.key()}`, "
-                      "not x: the two directions are not inverse to each other", _loc(inv, ia),
-                      stmt_key(ia))
+    for e, r in formulas(inv, "self.internal_type"):
+        G = normalize(e, env_for(y, F))
+        txt = " ".join(ast.unparse(e).split())
+        if G.same(X):
+            run.ok(R_inv, "LinearSegment", "inverse(forward(x)) normalises to x: the two "
+                   "formulas are algebraic inverses", _loc(inv, r))
+        else:
+            run.violation(R_inv, "LinearSegment.convert_physical_to_internal", "not-inverse",
+                          f"`{txt}` composed with the forward formula gives `{G.key()}`, not x: "
+                          "the two directions are not inverse to each other", _loc(inv, r), txt)
     # factor == 0 -> inverse value
     z = [t for t in walk_no_nested(inv.node) if isinstance(t, ast.If) and "factor" in ast.unparse(
         t.test)]
